@@ -34,9 +34,12 @@ type Cfg struct {
 	Shards  uint32 `json:"shards"`
 }
 
+// History.Mode: "" (direct: LockServer.Lock/TryLock/Unlock/Renew are called) or "service" (the same requests go through the
+// real grpc.Service handlers of net/grpc as *pb.LockRequest etc.; the trace then carries error CODES, see exec.go).
 type History struct {
 	ID     string `json:"id"`
 	Cfg    Cfg    `json:"cfg"`
+	Mode   string `json:"mode,omitempty"`
 	Events []Ev   `json:"events"`
 }
 
